@@ -121,6 +121,13 @@ impl UCICommand {
         let mut idx = 0;
         while idx < args.len() {
             let token = args[idx];
+            if matches!(
+                token,
+                "wtime" | "btime" | "winc" | "binc" | "depth" | "nodes" | "movetime"
+            ) && idx + 1 >= args.len()
+            {
+                return Err(format!("Missing value for {token}"));
+            }
 
             #[allow(clippy::match_same_arms)]
             match token {
